@@ -151,8 +151,24 @@ def C17(ctx, facts):
     ctx.assume("E-PANIC client (%s): %s" % (ctx.cur_config, st))
 
 
+def C17_ext(ctx, facts):
+    """A panic precondition outside the crate: hyper's HTTP/2 client strips a `Connection` header with
+    `to_str().unwrap()` inside the connection task hyperdriver spawns, so an opaque (non-ASCII, yet valid) Connection value
+    panics that task.  hyperdriver's guard is that every request sent on an HTTP/2 connection has had the connection-specific
+    headers removed (check_http2_request); the rule re-uses C13.4's all-paths obligation for exactly that removal."""
+    import c13
+    n0 = len(ctx.obs)
+    c13.C13_4(ctx, facts)
+    mine = [o for o in ctx.obs[n0:] if "connection-headers" in o.key or "CONNECTION_HEADERS" in o.key]
+    ctx.obs[n0:] = mine
+    ctx.floor("check_http2_request|connection-header-obligations", len(mine), 2, "obligations on the removal of connection-specific headers")
+    ctx.assume("hyper 1.x h2 client: headers.remove(CONNECTION) followed by to_str().unwrap() (proto/h2/mod.rs) is the only header-dependent panic "
+               "of the vendored hyper reachable from a request that hyperdriver forwards; found by a seeded change, not by a scan of hyper")
+
+
 RULES = [
     ("E-PANIC", C17, ["default", "tls"]),
+    ("C17.ext", C17_ext, ["default"]),
 ]
 
 THOROUGH_RULES = [("clippy-xref", panics.clippy_crosscheck)]
